@@ -336,8 +336,16 @@ def tokenize_deb822_file(sequence: Iterable[Union[str, bytes]]) -> Iterable[Deb8
 
             # If there are multiple whitespace-only lines, we combine them
             # into one token.
-            r = list(text_stream.takewhile(lambda x: _RE_WHITESPACE_LINE.match(x) is not None))
+            # Only lines that (will) end on a newline can be merged; a
+            # whitespace-only last line without a newline must remain a token
+            # of its own as tokens containing newlines must end on one.
+            r = list(text_stream.takewhile(
+                lambda x: x.endswith("\n") != auto_correct_newlines
+                and _RE_WHITESPACE_LINE.match(x) is not None
+            ))
             if r:
+                if auto_correct_newlines:
+                    r = [x + "\n" for x in r]
                 line += "".join(r)
 
             # whitespace tokens are likely to have duplicate cases (like
